@@ -13,6 +13,8 @@ import (
 	"testing"
 	"time"
 
+	"github.com/BondMachineHQ/BondMachine/pkg/bmnumbers"
+	"github.com/BondMachineHQ/BondMachine/pkg/procbuilder"
 	"github.com/BondMachineHQ/BondMachine/pkg/simbox"
 	"pgregory.net/rapid"
 	"verifharness/gen"
@@ -20,13 +22,13 @@ import (
 )
 
 type Case struct {
-	Spec    gen.BMSpec
-	Inputs  []uint8
-	First   int    // size of the warm-up batch
-	Batch   int    // size of each of the two measured batches
-	Callers int    // concurrent callers (1 = sequential)
-	API     string // "single" (SinglePipelineSimulate) or "fitness" (Fitness_default)
-	Ticks   int    // Fitness_default interactions
+	Spec     gen.BMSpec
+	Inputs   []uint8
+	First    int    // size of the warm-up batch
+	Batch    int    // size of each of the two measured batches
+	Callers  int    // concurrent callers (1 = sequential)
+	API      string // "single" (SinglePipelineSimulate) or "fitness" (Fitness_default)
+	Ticks    int    // Fitness_default interactions
 	DataType string
 }
 
@@ -158,14 +160,22 @@ func prop(c Case) pbt.Outcome {
 		}
 		wg.Wait()
 	}
+	// process-wide registries a simulation may add to (number types are registered on demand): "no more
+	// retained simulator state" — a type or opcode is registered once, not once per simulation
+	registries := func() int {
+		return len(bmnumbers.AllTypes) + len(bmnumbers.AllMatchers) + len(bmnumbers.AllDynamicalTypes) + len(procbuilder.Allopcodes)
+	}
 	g0 := settle()
 	batch(c.First)
 	g1 := settle()
+	r1 := registries()
 	c1 := creators()
 	batch(c.Batch)
 	g2 := settle()
+	r2 := registries()
 	batch(c.Batch)
 	g3 := settle()
+	r3 := registries()
 	c3 := creators()
 	if simErr != nil {
 		if strings.HasPrefix(simErr.Error(), "panic") {
@@ -202,12 +212,17 @@ func prop(c Case) pbt.Outcome {
 			"live goroutines grow with the number of finished simulations: before=%d after %d sims=%d after %d=%d after %d=%d (%.1f per simulation; machine has %d processors); created by: %s",
 			g0, c.First, g1, c.First+c.Batch, g2, c.First+2*c.Batch, g3, float64(g3-g1)/float64(2*c.Batch), len(c.Spec.Procs), diffCreators(c1, c3))}
 	}
+	if r2 > r1 && r3 > r2 {
+		return pbt.Outcome{NonTrivial: nt, Labels: labels, Fail: pbt.Failf("registry-growth",
+			"the process-wide registries (number types, matchers, opcodes) grow with the number of finished simulations: %d entries after %d simulations, %d after %d, %d after %d (data type %q)",
+			r1, c.First, r2, c.First+c.Batch, r3, c.First+2*c.Batch, c.DataType)}
+	}
 	return pbt.Outcome{NonTrivial: nt, Labels: labels}
 }
 
 var Props = []*pbt.Entry{
 	pbt.Def("no_leak",
-		"live dataflow-shaped machines of 1..6 processors; warm-up batch of 1/2/5 then two measured batches of 3/5/10/25 single-shot simulations (SinglePipelineSimulate, or Fitness_default with an empty input simbox), from 1/2/4/8 concurrent callers; goroutine count after a settle loop must not grow in both measured batches; non-trivial = batch>=5 and >=2 processors",
+		"live dataflow-shaped machines of 1..6 processors; warm-up batch of 1/2/5 then two measured batches of 3/5/10/25 single-shot simulations (SinglePipelineSimulate, or Fitness_default with an empty input simbox), from 1/2/4/8 concurrent callers; goroutine count after a settle loop must not grow in both measured batches, nor may the number of entries of the process-wide registries (number types, matchers, opcodes); non-trivial = batch>=5 and >=2 processors",
 		genCase, prop),
 }
 
